@@ -204,13 +204,24 @@ CMax(s)     == (s.fn * MaxRadius) \div s.fd + 1
 CloseBox(s, cm, i, j) == /\ Abs(At(s, i).x - At(s, j).x) <= cm
                          /\ Abs(At(s, i).y - At(s, j).y) <= cm
                          /\ Abs(At(s, i).z - At(s, j).z) <= cm
-CandPairs(s) == LET cm == CMax(s)
-                    n  == Len(s.atoms)
-                IN F(UNION {{<<i, j>> : j \in {j \in (i + 1)..n : CloseBox(s, cm, i, j)}} : i \in Idx(s)})
+\* all pairs i < j with CloseBox: atoms are sorted into square columns of side cm (x and y), a pair can only be close
+\* when the columns are the same or neighbours
+CandPairs(s) ==
+  LET cm  == CMax(s)
+      x0  == MinOf({At(s, i).x : i \in Idx(s)})
+      y0  == MinOf({At(s, i).y : i \in Idx(s)})
+      bx  == F([i \in Idx(s) |-> (At(s, i).x - x0) \div cm])
+      by  == F([i \in Idx(s) |-> (At(s, i).y - y0) \div cm])
+      BXs  == F({bx[i] : i \in Idx(s)})
+      BYs  == F({by[i] : i \in Idx(s)})
+      slab == F([b \in BXs |-> F({i \in Idx(s) : bx[i] = b})])
+      col  == F([b \in BXs |-> F([d \in BYs |-> F({i \in slab[b] : by[i] = d})])])
+      around(i) == UNION {col[b][d] : b \in {bx[i] - 1, bx[i], bx[i] + 1} \cap BXs, d \in {by[i] - 1, by[i], by[i] + 1} \cap BYs}
+  IN F(UNION {{<<i, j>> : j \in {j \in around(i) : i < j /\ CloseBox(s, cm, i, j)}} : i \in Idx(s)})
 BlockIdx(s, rn) == IF HasBlock(s, rn) THEN CHOOSE k \in DOMAIN s.blocks : s.blocks[k].resname = rn ELSE 0
 
 \* per-atom tables: rid = residue (its lowest atom), nb = the residue is bonded by names, fb = it is a fall-back
-\* residue, bi = index of its block (0 = none); res = the residues as sets of atoms
+\* residue, bi = index of its block (0 = none); res = the residues as sets of atoms; ats = atoms of residue rid
 Ctx(s) ==
   LET rk   == F([i \in Idx(s) |-> ResKey(SPEC, At(s, i))])
       Keys == F({rk[i] : i \in Idx(s)})
@@ -222,7 +233,8 @@ Ctx(s) ==
       nb  |-> F([i \in Idx(s) |-> nbk[rk[i]]]),
       fb  |-> F([i \in Idx(s) |-> fbk[rk[i]]]),
       bi  |-> F([i \in Idx(s) |-> BlockIdx(s, At(s, i).resname)]),
-      res |-> F({G[k] : k \in Keys})]
+      res |-> F({G[k] : k \in Keys}),
+      ats |-> F([r \in {fst[k] : k \in Keys} |-> G[rk[r]]])]
 SameResC(c, i, j)     == c.rid[i] = c.rid[j]
 NameEdgeC(s, c, i, j) == /\ SameResC(c, i, j) /\ c.nb[i]
                          /\ BEdge(s.blocks[c.bi[i]], At(s, i).name, At(s, j).name)
@@ -256,7 +268,7 @@ MolsC(s, c, E) ==
   LET A  == F(UNION {{<<c.rid[p[1]], c.rid[p[2]]>>, <<c.rid[p[2]], c.rid[p[1]]>>} : p \in {q \in E : c.rid[q[1]] # c.rid[q[2]]}})
       RS == F({c.rid[i] : i \in Idx(s)})
       CC == CompsFrom(RS, A, {})
-  IN F({F({i \in Idx(s) : c.rid[i] \in cc}) : cc \in CC})
+  IN F({F(UNION {c.ats[r] : r \in cc}) : cc \in CC})
 
 \* cand = CandPairs(s), computed once by the caller
 FastOutC(s, c, cand) ==
